@@ -128,7 +128,14 @@ def _do_insert(obj, params, nums, form):
 
 def check_insert(case, ctx):
     d = case["defn"]
-    obj = build.make(d, precision=d["precision"]) if d.get("precision") else build.make(d)
+    if d.get("precision"):
+        obj = build.make(d, precision=d["precision"])
+    elif len(d["P"]) % 4 == 1:
+        # the shape may have been created with the documented alternative span search (used whenever it is evaluated)
+        obj = build.make(d, find_span_func=helpers.find_span_binsearch)
+        ctx.label("binary-span-search")
+    else:
+        obj = build.make(d)
     ctx.label("precision-keyword-without-normalisation", bool(d.get("precision")))
     R = build.exact_from(d, obj)
     pdim = len(d["degree"])
